@@ -128,8 +128,57 @@ pub fn run(args: &Args) -> i32 {
         }
     }
 
+    // ---------------- the compressor's own predefined tables and its table construction from probabilities
+    // (incl. several less-than-one symbols) against the specification's construction
+    {
+        let check_enc = |rec: &Recorder, name: &str, t: &vfse::EncFse, norm: &[i16], acc_log: u8| {
+            rec.eval();
+            let want = model_table(norm, acc_log);
+            let states = t.states();
+            let mut problem: Option<String> = None;
+            if states.len() != want.len() || t.acc_log() != acc_log {
+                problem = Some(format!("{} states / log {}, the specification has {} / {}", states.len(), t.acc_log(), want.len(), acc_log));
+            } else {
+                for (sym, idx, baseline, nb) in &states {
+                    if want.get(*idx) != Some(&(*sym, *nb, *baseline as u32)) {
+                        problem = Some(format!("state {idx}: encoder (symbol {sym}, bits {nb}, baseline {baseline}), specification {:?}", want.get(*idx)));
+                        break;
+                    }
+                }
+            }
+            if let Some(p) = problem {
+                rec.violation(Sig::new("encoder_table_differs_from_specification", name, &format!("less_than_one_symbols={}", norm.iter().filter(|x| **x == -1).count().min(2))), json!({"what": p, "norm": norm, "acc_log": acc_log}), json!({"part": "encoder_from_probabilities", "norm": norm, "acc_log": acc_log}));
+            } else {
+                rec.distinct(fnv_str(&format!("enc{want:?}")));
+            }
+        };
+        let res = catch(|| (vfse::EncFse::default_ll(), vfse::EncFse::default_of(), vfse::EncFse::default_ml()));
+        match res {
+            Err(p) => rec.panic_violation(&p, "encoder predefined tables", json!({}), json!({"part": "encoder predefined"})),
+            Ok((ll, of, ml)) => {
+                check_enc(&rec, "predefined literal lengths", &ll, &ref_tables::LL_DEFAULT_NORM, 6);
+                check_enc(&rec, "predefined offsets", &of, &ref_tables::OF_DEFAULT_NORM, 5);
+                check_enc(&rec, "predefined match lengths", &ml, &ref_tables::ML_DEFAULT_NORM, 6);
+            }
+        }
+        let n = args.vol(40_000, 2_000_000);
+        par_cases(&rec, 123, n, |_, r| {
+            let acc_log = r.range(5, 9) as u8;
+            let ms = *r.pick(&[12usize, 32, 36, 53, 256]);
+            let norm = gen_norm(r, acc_log, ms);
+            if zf::check_norm(&norm, acc_log).is_err() {
+                return;
+            }
+            let probs: Vec<i32> = norm.iter().map(|x| i32::from(*x)).collect();
+            match catch(|| vfse::EncFse::from_probabilities(&probs, acc_log)) {
+                Ok(t) => check_enc(&rec, "from_probabilities", &t, &norm, acc_log),
+                Err(p) => rec.panic_violation(&p, "from_probabilities", json!({"norm": norm}), json!({"part": "encoder_from_probabilities", "norm": norm, "acc_log": acc_log})),
+            }
+        });
+    }
+
     // ---------------- decoder side: description -> table
-    let n = args.vol(150_000, 15_000_000);
+    let n = args.vol(600_000, 40_000_000);
     par_cases(&rec, 12, n, |i, r| {
         rec.eval();
         let acc_log = r.range(5, 9) as u8;
@@ -182,7 +231,7 @@ pub fn run(args: &Args) -> i32 {
     });
 
     // ---------------- encoder side: production histograms
-    let n = args.vol(60_000, 5_000_000);
+    let n = args.vol(200_000, 15_000_000);
     par_cases(&rec, 121, n, |i, r| {
         rec.eval();
         let (max_sym, max_log, kind) = *r.pick(&[(35usize, 9u8, "ll"), (52, 9, "ml"), (31, 8, "of"), (11, 6, "huffman weights")]);
@@ -356,8 +405,89 @@ pub fn run(args: &Args) -> i32 {
         }
     });
 
+    // ---------------- what the compressor really writes: table descriptions located by the frame walker in frames from
+    // compress_to_vec must parse (ruzstd's parser with the format's maximum logs, and the model's strict reader)
+    {
+        let n = args.vol(300, 6000);
+        par_cases(&rec, 124, n, |i, r| {
+            rec.eval();
+            let data = match i % 4 {
+                0 => crate::wl::flat_offset_classes(r),
+                1 => crate::wl::gen(r, crate::wl::Shape::RepeatsFar, 200_000),
+                2 => crate::wl::gen(r, crate::wl::Shape::Text, 100_000),
+                _ => {
+                    let shape = crate::wl::random_shape(r);
+                    crate::wl::gen(r, shape, 150_000)
+                }
+            };
+            let frame = match catch(|| ruzstd::encoding::compress_to_vec(&data[..], ruzstd::encoding::CompressionLevel::Fastest)) {
+                Ok(f) => f,
+                Err(p) => {
+                    rec.panic_violation(&p, "compress_to_vec", json!({}), json!({"part": "production", "case": [args.seed, 124, i]}));
+                    return;
+                }
+            };
+            // lenient structural walk: only used to find the table descriptions
+            let mut pos = 6usize;
+            let mut tables = 0;
+            while pos + 3 <= frame.len() {
+                let h = u32::from(frame[pos]) | u32::from(frame[pos + 1]) << 8 | u32::from(frame[pos + 2]) << 16;
+                let (last, ty, size) = (h & 1 == 1, (h >> 1) & 3, (h >> 3) as usize);
+                let body = pos + 3;
+                if ty == 2 && body + size <= frame.len() {
+                    let blk = &frame[body..body + size];
+                    if let Ok(lh) = dec::parse_literals_header(blk) {
+                        let lit_len = lh.header_len as usize + lh.compressed_size.map(|c| c as usize).unwrap_or(if lh.ls_type == 1 { 1 } else { lh.regenerated_size as usize });
+                        if lit_len < blk.len() {
+                            let sq = &blk[lit_len..];
+                            if let Ok((hl, nseq, Some(modes))) = dec::parse_sequences_header(sq) {
+                                if nseq > 0 {
+                                    let mut at = hl as usize;
+                                    for (kind, shift, max_log, max_sym) in [("literal lengths", 6u8, 9u8, 35usize), ("offsets", 4, 8, 31), ("match lengths", 2, 9, 52)] {
+                                        match (modes >> shift) & 3 {
+                                            1 => at += 1,
+                                            2 => {
+                                                tables += 1;
+                                                let src = &sq[at.min(sq.len())..];
+                                                let ours = catch(|| {
+                                                    let mut t = ruzstd::fse::FSETable::new(max_sym as u8);
+                                                    t.build_decoder(src, max_log).map_err(|e| e.to_string())
+                                                });
+                                                let model = zf::read_ncount(src, max_log, max_sym);
+                                                match (&ours, &model) {
+                                                    (Ok(Ok(a)), Ok((_, _, b))) if a == b => at += *a,
+                                                    _ => {
+                                                        rec.violation(
+                                                            Sig::new("compressor_table_description_invalid", kind, &format!("{:?}", model.as_ref().err().map(|e| e.chars().filter(|c| !c.is_ascii_digit()).take(50).collect::<String>()))),
+                                                            json!({"decoder": format!("{ours:?}"), "specification": format!("{:?}", model.as_ref().map(|m| (m.1, m.2))), "input_len": data.len()}),
+                                                            json!({"part": "production", "case": [args.seed, 124, i], "data_kind": i % 4}),
+                                                        );
+                                                        return;
+                                                    }
+                                                }
+                                            }
+                                            _ => {}
+                                        }
+                                    }
+                                }
+                            }
+                        }
+                    }
+                }
+                if ty == 3 {
+                    break;
+                }
+                pos = body + if ty == 1 { 1 } else { size };
+                if last {
+                    break;
+                }
+            }
+            rec.count("production_table_descriptions_checked", tables);
+        });
+    }
+
     // ---------------- the three interleaved sequence states through the compressor's section writer and the decoder's section reader
-    let n = args.vol(6000, 300_000);
+    let n = args.vol(20_000, 1_000_000);
     par_cases(&rec, 122, n, |i, r| {
         rec.eval();
         let nseq = match r.below(4) {
